@@ -20,24 +20,20 @@ ID = 'C07'
 LEAN_MODULE = 'CC.Properties.C07'
 LEVEL = 'proof'
 THEOREMS = [
-    'CC.C07_table_total_partial', 'CC.C07_table_total_counterexample',
-    'CC.C07_reads_written_partial', 'CC.C07_reads_written_counterexample',
-    'CC.C07_table_wellformed',
-    'CC.C07_one_to_one', 'CC.C07_nothing_dropped_iff', 'CC.C07_dropped_counterexample',
+    'CC.C07_table_total', 'CC.C07_reads_written', 'CC.C07_table_wellformed',
+    'CC.C07_one_to_one', 'CC.C07_nothing_dropped_iff', 'CC.C07_nothing_dropped',
     'CC.C07_branch_id_terminals', 'CC.C07_position_independent',
-    'CC.C07_faithful_resistor', 'CC.C07_faithful_impedance', 'CC.C07_faithful_capacitor',
-    'CC.C07_faithful_inductance', 'CC.C07_faithful_load', 'CC.C07_faithful_short_circuit',
+    'CC.C07_faithful_resistor', 'CC.C07_faithful_conductance', 'CC.C07_faithful_impedance', 'CC.C07_faithful_admittance',
+    'CC.C07_faithful_capacitor', 'CC.C07_faithful_inductance', 'CC.C07_faithful_load', 'CC.C07_faithful_short_circuit',
     'CC.C07_faithful_dc_voltage_source', 'CC.C07_faithful_ac_voltage_source',
     'CC.C07_faithful_complex_voltage_source', 'CC.C07_faithful_dc_current_source',
-    'CC.C07_faithful_ac_current_source',
-    'CC.C07_complex_current_source_counterexample',
-    'CC.C07_harmonic_voltage_partial', 'CC.C07_harmonic_current_partial',
-    'CC.C07_harmonic_internal_counterexample', 'CC.C07_faithful_counterexample',
+    'CC.C07_faithful_ac_current_source', 'CC.C07_faithful_complex_current_source',
+    'CC.C07_harmonic_voltage', 'CC.C07_harmonic_current',
     'CC.C07_harmonic_sound', 'CC.C07_harmonic_complete', 'CC.C07_harmonic_index',
+    'CC.C07_faithful_nonperiodic', 'CC.C07_harmonic', 'CC.C07_faithful',
     'CC.C07_ground', 'CC.C07_limits_dc', 'CC.C07_limits_zero_resistance',
 ]
-OPEN_STATEMENTS = ['CC.C07_table_total_statement', 'CC.C07_reads_written_statement',
-                   'CC.C07_faithful_statement', 'CC.C07_harmonic_statement']
+OPEN_STATEMENTS = []
 ASSUMPTIONS = [
     'np.cos / np.sin are parameters of the model (trig : Rat → Rat × Rat); the harness passes numpy\'s own values',
     'the harmonic coefficients amplitude(n), phase(n) of periodic_functions.py are parameters (property C08); the harness passes the repo\'s own values',
@@ -279,6 +275,29 @@ def others(rng, n):
         fill.append(dict(fn=fn, id=f'f{i}', nodes=[f'p{i}', f'p{i + 1}'], args=gc.gen_args(rng, fn, True, [64.0, 128.0])))
     return fill
 
+# the inputs on which the property failed before the fix commits ac3e686 / 76d4676 / 166c364: they must pass now,
+# and the oracle reports them again (canonical forms of the `fixed` entries of known_findings.json) if a fix is reverted
+CORPUS = [
+    ([dict(fn='ground', id='gnd', nodes=['0'], args={}),
+      dict(fn='dc_current_source', id='I', nodes=['0', '1'], args=dict(I=1.0, G=0.0)),
+      dict(fn='conductance', id='G', nodes=['1', '0'], args=dict(G=2.0)),
+      dict(fn='resistor', id='R', nodes=['1', '0'], args=dict(R=1.0))], 0.0, 1e-3),
+    ([dict(fn='ground', id='gnd', nodes=['0'], args={}),
+      dict(fn='dc_current_source', id='I', nodes=['0', '1'], args=dict(I=1.0, G=0.0)),
+      dict(fn='admittance', id='Y', nodes=['1', '0'], args=dict(Y=complex(2.0, 1.0))),
+      dict(fn='resistor', id='R', nodes=['1', '0'], args=dict(R=1.0))], 1.0, 1e-3),
+    ([dict(fn='complex_current_source', id='I', nodes=['0', '1'], args=dict(I=complex(1.0, 1.0), Y=complex(0.5, 0.25))),
+      dict(fn='resistor', id='R', nodes=['1', '0'], args=dict(R=1.0))], 0.0, 1e-3),
+    ([dict(fn='complex_current_source', id='I', nodes=['0', '1'], args=dict(I=complex(1.0, 1.0), Y=complex(0.5, 0.25))),
+      dict(fn='resistor', id='R', nodes=['1', '0'], args=dict(R=1.0))], 7.0, 1e-3),
+    ([dict(fn='periodic_voltage_source', id='V', nodes=['1', '0'], args=dict(wavetype='rect', V=1.0, w=2.0, phi=0.0, R=5.0)),
+      dict(fn='resistor', id='R', nodes=['1', '0'], args=dict(R=1.0))], 2.0, 1e-3),
+    ([dict(fn='periodic_voltage_source', id='V', nodes=['1', '0'], args=dict(wavetype='rect', V=1.0, w=2.0, phi=0.0, R=5.0)),
+      dict(fn='resistor', id='R', nodes=['1', '0'], args=dict(R=1.0))], 0.0, 1e-3),
+    ([dict(fn='periodic_current_source', id='J', nodes=['0', '1'], args=dict(wavetype='saw', I=2.0, w=0.5, phi=0.5, G=0.25)),
+      dict(fn='resistor', id='R', nodes=['1', '0'], args=dict(R=1.0))], 1.5, WRES_DYADIC),
+]
+
 def run(ctx, out):
     out.rule = ('per constructor kind × list position × analysis frequency (0, the source frequency, dyadic offsets just '
                 'inside / on / outside the resolution, harmonics n·w0 of periodic sources, random) × both resolutions '
@@ -289,6 +308,8 @@ def run(ctx, out):
     if drv is not None:
         check_tables(ctx, out)
     check_periodic_symmetry(ctx, out)
+    for descs, w, wres in CORPUS:
+        check_case(ctx, out, descs, w, wres, 'corpus')
     rng = ctx.rng('kinds')
     ctors = gc.constructors()
     kinds = [k for k in ctors if k != 'ground']
@@ -321,7 +342,7 @@ def run(ctx, out):
     for k in range(n_random):
         if ctx.time_left() < 10: out.notes.append(f'stopped after {k} random circuits (budget)'); break
         exact = rng.random() < 0.7
-        kinds_k = gc.ALL_TWO_TERMINAL if rng.random() < 0.5 else [x for x in gc.ALL_TWO_TERMINAL if x not in ('conductance', 'admittance', 'complex_current_source')]
+        kinds_k = gc.ALL_TWO_TERMINAL
         descs = gc.random_circuit(rng, kinds_k, exact=exact, freqs=[1.0, 2.0, 0.5])
         wres = rng.choice([WRES_DYADIC, 1e-3])
         w = rng.choice([0.0, 1.0, 2.0, 0.5, 4.0, 1.0 + WRES_DYADIC / 2, 2.0 + 2 * WRES_DYADIC, 3.0, 1.5])
